@@ -290,6 +290,8 @@ class MemView(Opaque):
         self._no('+', o)
 
     def __sub__(self, o):
+        if isinstance(o, Opaque) and not isinstance(o, MemView):
+            return self.f['of'] - o          # handled by ndarray.__rsub__
         self._no('-', o)
 
     def __rsub__(self, o):
@@ -298,6 +300,8 @@ class MemView(Opaque):
         self._no('-', o)
 
     def __mul__(self, o):
+        if isinstance(o, Opaque) and not isinstance(o, MemView) and o.kind != 'complex':
+            return self.f['of'] * o          # handled by ndarray.__rmul__
         self._no('*', o)
 
     __rmul__ = __mul__
